@@ -32,6 +32,8 @@ class ExprMixin:
     def ev1(self, st, n):
         """evaluate a pure expression to a single V (merging branches with ite); state unchanged"""
         rs = self.ev(st.copy(), n)
+        if not rs:          # every branch infeasible: the state itself is infeasible, any value will do
+            return V(fresh_val("dead"), None)
         return self.merge(st, rs)
 
     def merge(self, base, rs):
@@ -244,7 +246,7 @@ class ExprMixin:
             return self.call_function(st, k, [obj], {}, lineno, recv_ty=ty)
         if ty == "Path":
             return [Res(st, self.path_attr(st, obj, attr))]
-        if ty in self.reg.classes and (self.reg.lookup(ty, attr, self.functions) or self.reg.lookup(ty, attr, self.reg.contracts)):
+        if ty in self.reg.classes and self.reg.lookup2(ty, attr, self.functions, self.reg.contracts):
             # bound method used as a value (callback): injective in the receiver
             bm = z3.Function("bound_method", Val, z3.StringSort(), Val)
             bm_self = z3.Function("bm_self", Val, Val)
@@ -372,7 +374,7 @@ class ExprMixin:
         # user-defined operators
         dunder = {ast.BitAnd: "__and__", ast.Mult: "__mul__", ast.BitOr: "__or__", ast.Sub: "__sub__", ast.Add: "__add__"}.get(type(op))
         if dunder and ta in self.reg.classes:
-            k = self.reg.lookup(ta, dunder, self.functions) or self.reg.lookup(ta, dunder, self.reg.contracts)
+            k = self.reg.lookup2(ta, dunder, self.functions, self.reg.contracts)
             if k:
                 return self.call_function(st, k, [a, b], {}, lineno, recv_ty=ta)
         if isinstance(op, ast.Div) and ta == "Path":
@@ -446,7 +448,7 @@ class ExprMixin:
             return [Res(st, V(BoolV(z3.Not(e) if isinstance(op, ast.NotIn) else e), "bool"))]
         dunder = {ast.Lt: "__lt__", ast.LtE: "__le__", ast.Gt: "__gt__", ast.GtE: "__ge__"}[type(op)]
         if ta in self.reg.classes:
-            k = self.reg.lookup(ta, dunder, self.functions) or self.reg.lookup(ta, dunder, self.reg.contracts)
+            k = self.reg.lookup2(ta, dunder, self.functions, self.reg.contracts)
             if k:
                 return self.call_function(st, k, [a, b], {}, lineno, recv_ty=ta)
             raise Unsupported(f"{dunder} on {ta} (line {lineno})")
@@ -590,9 +592,13 @@ class ExprMixin:
 
     def ev_Await(self, st, n):
         out = []
+        n0 = len(st.trace)
         for r in self.ev(st, n.value):
             if not r.ok:
                 out.append(r)      # the awaited coroutine raised: interference already applied by the callee contract
+                continue
+            if any(e.name == "await" for e in r.st.trace[n0:]):
+                out.append(r)      # the callee contract (awaits=True) already applied the interference
                 continue
             out.append(Res(self.interfere(r.st, n.lineno), r.val))
         return out
